@@ -85,6 +85,11 @@ func main() {
 	c := &Ctx{Prop: *prop, Tier: *tier, Seed: *seed, Batch: *batch, NBatch: *nbatch, MBatch: *mbatch, MNBatch: *mnbatch, Mode: *mode, start: time.Now()}
 	c.Res = wk.New(*prop, *tier, *seed, *batch)
 	c.Res.Env = fmt.Sprintf("TZ=%s mode=%s GOMAXPROCS=%d", os.Getenv("TZ"), *mode, runtime.GOMAXPROCS(0))
+	if tz := os.Getenv("TZ"); tz != "" && tz != "UTC" {
+		// a calendar day that the process zone skipped entirely is outside the domain of every date property
+		zo := newZoneOracle(time.Local)
+		gen.DayFilter = func(y, m, d int) bool { return zo.dayHasInstant(y, m, d) }
+	}
 	if *prop != "C04" { // C04 reports panics itself, with the input that caused them
 		adapter.OnPanic = func(op string, r any, stack string) {
 			if !strings.Contains(stack, "github.com/uhppoted/uhppote-core/") {
